@@ -110,7 +110,7 @@ void fail(const std::string &msg) {
   throw FailEx();
 }
 
-static long g_tick_ceiling = 2000000;
+static long g_tick_ceiling = 300000;
 static long g_ticks[8];
 static void tick_fn(int site) {
   if (site >= 0 && site < 8) g_ticks[site]++;
